@@ -124,6 +124,8 @@ def run(ctx):
                 continue
             ok = via_get_conn(b, c)
             n_via += ok
+            if ok and n_via % 12 == 1:
+                ctx.sample(f"{rec['file']}:{c.get('line')} {T.nice(name)} :: {last_seg(callee_of(c))} on get_conn()")
             if not ok:
                 ctx.violation("K1-sql-through-txn", name, "statement-bypasses-transaction:" + last_seg(callee_of(c)),
                               f"{T.nice(name)} line {c.get('line')}: `{last_seg(callee_of(c))}` is issued on a rusqlite Connection that does not come from the transaction's get_conn() "
@@ -217,6 +219,7 @@ def run(ctx):
                 for m in re.finditer(r"journal_mode\s*=\s*(\w+)", t, re.I):
                     settings.append((c, m.group(1).upper()))
     ctx.floor("K8-journal-wal", "journal_mode settings in IdlSqlite::new", len(settings), 2)
+    ctx.sample("IdlSqlite::new journal_mode settings in source order: " + ", ".join(f"{m}@{c.get('line')}" for c, m in settings))
     uncond = [c for c, m in settings if m == "WAL" and nb._unconditional_below(c, nb.root)]
     ctx.check(bool(uncond), "K8-journal-wal", DB_NEW, "wal-set-unconditionally",
               "journal_mode=WAL is set on every open",
